@@ -14,10 +14,14 @@ class Holder:           # "${harness.adapters.wl_types.Holder.inner}": attribute
     inner = object()
 
 
+CREATED = []           # every recording instance, in creation order (the harness mutates their containers)
+
+
 class Rec:
     def __init__(self, *args, **kwargs):
         self.wl_args = args
         self.wl_kwargs = kwargs
+        CREATED.append(self)
 
 
 def _log(cb):
